@@ -4,6 +4,8 @@ import Rough.Driver.Server
 import Rough.Driver.Keys
 import Rough.Driver.Stats
 import Rough.Driver.Client
+import Rough.Driver.Config
+import Rough.Driver.Envelope
 open Rough Rough.Driver
 
 def dispatch (op : String) (args : List String) (impl : String) : Verdict :=
@@ -20,6 +22,9 @@ def dispatch (op : String) (args : List String) (impl : String) : Verdict :=
   | "stats" => opStats args impl
   | "rep" => opRep args impl
   | "client" => opClient args impl
+  | "cfg" => opCfg args impl
+  | "envenc" => opEnvEnc args impl
+  | "envdec" => opEnvDec args impl
   | "respond" => opRespond (args ++ [impl])
   | _ => bad ("unknown op " ++ op)
 
